@@ -476,8 +476,12 @@ def cmd_setup(args):
         print(r["raw_err"][-2000:])
         return 1
     from . import replay
-    rc = replay.build()
-    return rc
+    ok, log = replay.build()
+    print("replay binary:", "built" if ok else "FAILED")
+    if not ok:
+        print(log[-3000:])
+        return 1
+    return 0
 
 
 def main(argv):
